@@ -1,1 +1,6 @@
-void h_verify(void) { TMCG_PublicKey *self; str_t *data; str_t s; s.data = 0; s.size = 0; s.cap = 0; s.absid = 0; TMCG_PublicKey__verify(self, data, s); }
+void h_verify(void) { TMCG_PublicKey *self; str_t *data; str_t s; s.data = 0; s.size = 0; s.cap = 0; s.absid = 0;
+  _Bool r = TMCG_PublicKey__verify(self, data, s);
+  __CPROVER_assert(!r, "REACHABILITY-CANARY (must fail): an accepting run of verify exists"); }
+void h_decrypt(void) { TMCG_SecretKey *self; unsigned char *value; str_t s; s.data = 0; s.size = 0; s.cap = 0; s.absid = 0;
+  _Bool r = TMCG_SecretKey__decrypt(self, value, s);
+  __CPROVER_assert(!r, "REACHABILITY-CANARY (must fail): a successful decryption exists"); }
